@@ -1254,6 +1254,21 @@ fn relations(tier: Tier) -> Vec<Rel> {
     swu_toy!(toys::SwuAm3, "toy.SwuAm3", 107u64, false);
     swu_toy!(toys::SwuBigAx, "toy.SwuBigAx", 1021u64, true);
 
+    // ---- plain SWU hashing onto the shipped isogenous helper curves (their own COFACTOR and generator constants are
+    // read only here: the Wahby-Boneh suites clear the cofactor on the target curve)
+    macro_rules! swu_iso {
+        ($p:ty, $name:expr, $n:expr) => {{
+            let c = Arc::new(swu_ctx::<<$p as WBConfig>::IsogenousCurve>($name, None));
+            out.push(Rel::new(format!("hash.swu-iso/{}", $name), q($n), TAPE_MSG, move |t, o| hash_swu_rel::<<$p as WBConfig>::IsogenousCurve>(&c, t, o)).shrink_iters(100));
+        }};
+    }
+    swu_iso!(ark_test_curves::bls12_381::g1::Config, "test.bls12_381.G1.iso", 60);
+    swu_iso!(ark_test_curves::bls12_381::g2::Config, "test.bls12_381.G2.iso", 40);
+    swu_iso!(ark_bls12_381::g1::Config, "bls12_381.G1.iso", 60);
+    swu_iso!(ark_bls12_381::g2::Config, "bls12_381.G2.iso", 40);
+    swu_iso!(ark_bls12_377::g1::Config, "bls12_377.G1.iso", 60);
+    swu_iso!(ark_bls12_377::g2::Config, "bls12_377.G2.iso", 40);
+
     // ---- Elligator 2 -----------------------------------------------------------------------------
     macro_rules! ell {
         ($p:ty, $h:ty, $name:expr, $toy:expr, $maps:expr, $hashes:expr) => {{
